@@ -137,6 +137,11 @@ def gen_specs(tier):
     return out
 
 
+def large_gen_specs():
+    """sizes beyond any internal batch / buffer size"""
+    return [list(range(4097)), [{'i': i, 's': 'x' * (i % 7)} for i in range(10000)], ['é' * 50] * 5000, list(range(4096)), list(range(8193))]
+
+
 def lon_specs(tier):
     specs = numpy_specs('quick')[::17]
     out = [[]]
@@ -144,6 +149,7 @@ def lon_specs(tier):
         for t in itertools.combinations(specs[: 8 if tier == 'quick' else 14], n):
             out.append(list(t))
     # more than ten arrays: files 0.npy .. 11.npy must come back in numeric, not lexical, order
+    out.append([{'dtype': 'float64', 'shape': [300, 300], 'fill': 'ramp', 'layout': 'C'}, {'dtype': 'uint8', 'shape': [100000], 'fill': 'ramp', 'layout': 'C'}])
     out.append([{'dtype': 'int64', 'shape': [1], 'fill': 'ramp', 'layout': 'C'} if i % 2 else {'dtype': 'float32', 'shape': [i], 'fill': 'ramp', 'layout': 'C'} for i in range(12)])
     return out
 
@@ -367,7 +373,8 @@ def run(tier, seed):
     import tcv
 
     tcv.quiet_library()
-    doms = {'J': json_values(tier), 'Gen': gen_specs(tier), 'GenLazy': gen_specs('quick'), 'Np': numpy_specs(tier), 'Lon': lon_specs(tier), 'Pd': [s for s in frame_specs(tier) if s['kind'] != 'series'],
+    doms = {'J': json_values(tier) + [list(range(100000)), {'k%d' % i: [i, str(i)] for i in range(20000)}, 'y' * 300000],
+            'Gen': gen_specs(tier) + large_gen_specs(), 'GenLazy': gen_specs('quick') + large_gen_specs()[:2], 'Np': numpy_specs(tier), 'Lon': lon_specs(tier), 'Pd': [s for s in frame_specs(tier) if s['kind'] != 'series'],
             'Ps': [s for s in frame_specs(tier) if s['kind'] == 'series'], 'Dir': dir_specs(tier)}
     jobs = []
     sizes = {}
